@@ -12,8 +12,8 @@ META = {
             'fetch_add hands out consecutive disjoint ranges (C33_distinct_indices); every bucket >= 1 is in the allocation list of exactly one reservation of any partition, namely the one '
             'covering its trigger index (C33_unique_allocator) and that reservation starts no later than any reservation touching the bucket (C33_allocator_precedes); hence the load-then-store '
             'of a buffer pointer never overwrites (C33_pointers_stable: buffers are write-once), every index is constructed exactly once, into an allocated buffer, with the tag of its reservation '
-            '(C33_no_overwrite, C33_final_exact), the final size is the total growth (C33_final_size), and a thread spinning on a null buffer always has a non-spinning thread committed to '
-            'storing it (C33_wait_progress).  The model is tied to the code by running generated programs under generated schedules on the real class (all 3 strategies x inline/heap buffer '
+            '(C33_no_overwrite, C33_final_exact), the final size is the total growth (C33_final_size), a thread spinning on a null buffer always has a non-spinning thread committed to '
+            'storing it (C33_wait_progress) and every call returns under every fair schedule (C33_terminates_under_fairness).  The model is tied to the code by running generated programs under generated schedules on the real class (all 3 strategies x inline/heap buffer '
             'table x both iterator kinds x first bucket of 1, 2, 4 elements) and comparing step trace, returned positions, final size, contents and allocated buckets with the model evaluated in Coq; '
             'the property itself (ranges tile [0,size), every tag exactly at the position its call was handed, addresses unchanged) is evaluated on the implementation output.',
     'note': 'Trusted: Coq kernel; harness/vsched.h; SC interleaving of the atomic accesses (acquire/release/relaxed reorderings are not modelled); malloc returning fresh memory. No axioms.',
@@ -26,7 +26,7 @@ ASSUMPTIONS = [
     'size_ does not overflow and the vector stays below kMaxVectorSize (the code has no check; the model uses unbounded integers and an unbounded bucket table)',
     'growth only: clear / shrink_to_fit / pop_back / erase / insert concurrently with growth are outside the property (documented as not concurrency safe)',
     'grow_to_at_least is modelled as written (load, then grow_by of the difference): two concurrent calls may both grow; "total growth" counts what each call added',
-    'termination of the spin-wait is shown as a safety invariant (some thread with a non-blocking next step is committed to the store); fairness of the OS scheduler is assumed, not proved',
+    'termination of the spin-wait is proved under the hypothesis that the schedule is fair (every unfinished thread is scheduled again and again); fairness of the OS scheduler itself is assumed',
 ]
 
 SITES = ['start', 'cvec.emplace_back.size.fetch_add', 'cvec.growBy.size.fetch_add', 'cvec.grow_to_at_least.size.load',
@@ -106,15 +106,24 @@ def parse_extra(extra):
     return d
 
 
+def clist(items):
+    """list literal in cons form: Coq parses `a :: b :: nil` several times faster than the recursive notation [a; b]"""
+    return '(' + ' :: '.join(list(items) + ['nil']) + ')'
+
+
 def term_of(c, p, e):
     nthr = len(c['progs'])
-    res = dv.coq_list([dv.coq_list([dv.zlit(v) for _, v in p['results'].get(t, [])]) for t in range(nthr)])
+    res = clist([clist([dv.zlit(v) for _, v in p['results'].get(t, [])]) for t in range(nthr)])
+    # the model consumes one decision per step: the decisions beyond the implementation's trace (+2) are never looked at when
+    # the two agree, and when they disagree the model runs out of decisions (status budget) and the case is reported
+    sched = c['sched'][:len(p['steps']) + 2]
     return '(GC %d %d %d%%nat %s %s %s %d %s %d %d %s %s %d %d)' % (
         c['strat'], SHIFT_OF[c['esz']], c['budget'],
-        dv.coq_list([dv.coq_list([op_coq(o) for o in pr]) for pr in c['progs']]),
-        dv.coq_list([str(x) for x in c['sched']]),
-        ls_common.zpairs(p['steps']), p['status'], res, e['shift'], e['size'],
-        dv.coq_list([dv.zlit(x) for x in e['contents']]), dv.coq_list([str(x) for x in e['alloc']]), e['moved'], e['bad'])
+        clist([clist([op_coq(o) for o in pr]) for pr in c['progs']]),
+        '(dec %d%%nat 12 %d)' % (len(sched), sum(d * 12 ** i for i, d in enumerate(sched))),
+        '(dec_trace %d%%nat %d)' % (len(p['steps']), sum((a * 16 + b) * 256 ** i for i, (a, b) in enumerate(p['steps']))),
+        p['status'], res, e['shift'], e['size'],
+        clist([dv.zlit(x) for x in e['contents']]), clist([str(x) for x in e['alloc']]), e['moved'], e['bad'])
 
 
 def build_all():
@@ -155,10 +164,10 @@ def run(ctx):
     exes = build_all()
     ctx.phase('build')
     r = ctx.rng
-    n = 330 if ctx.quick else 9000
+    n = 140 if ctx.quick else 3000
     combos = [(s, i, f, e) for s in range(3) for i in range(2) for f in range(2) for e in (256, 128, 64)]
-    # every trait combination at least twice, then random
-    cases = [gen_case(r, forced=combos[k % len(combos)]) for k in range(2 * len(combos))] + [gen_case(r) for _ in range(n)]
+    # every trait combination at least once (thorough: 10 times), then random
+    cases = [gen_case(r, forced=combos[k % len(combos)]) for k in range((1 if ctx.quick else 10) * len(combos))] + [gen_case(r) for _ in range(n)]
     lines = [line_of(c) for c in cases]
     outs = run_grouped(exes, cases, lines)
     ctx.phase('run_impl')
@@ -183,7 +192,7 @@ def run(ctx):
     ctx.cov['rule'] = ('random programs (2-4 threads, 1-3 growth calls each: push_back / grow_by_generator / grow_by(range) / grow_by(n, v) / grow_to_at_least, deltas biased to the '
                        'bucket boundaries) x random and bursty schedules x 3 strategies x inline/heap bucket table x fast/compact iterator x first bucket of 1/2/4 elements, one fork per case '
                        'under vsched; non-trivial = the trace contains at least one buffer-pointer store and the threads really interleave; distinct = distinct (traits, trace)')
-    verdicts = ls_common.judge_parallel(ctx, 'From DV Require Import Base.Sched Model.CVecGrowModel Model.C33Check.', 'judge_grow', terms, shard_size=60)
+    verdicts = ls_common.judge_parallel(ctx, 'From DV Require Import Base.Sched Model.CVecGrowModel Model.C33Check.', 'judge_grow', terms, shard_size=60 if ctx.quick else 120)
     if verdicts is None:
         ctx.broken.append('correspondence L(C33): the model no longer evaluates')
         return
